@@ -908,9 +908,82 @@ def s_p20(ctx, T, tx, fee, F, A, label):
     check_outputs(ctx, body, [dict(address=ADDR["bob"], coin=q), dict(address=ADDR["alice"], coin=lov - F - q)], label)
 
 
+def s_p21(ctx, T, tx, fee, F, A, label):
+    """a parameter named like the record field it is assigned to (`limit: limit`), a Bool argument in a
+    nested record, a string field, a negative constant expression, the unit datum `()`, a collateral
+    block selected by party"""
+    eng = ctx.eng
+    limit = sym(ctx, "limit")
+    on = ctx.sym_bool("on")
+    lov = sym(ctx, "src.lovelace")
+    eng.assume(lov - F - 2000 >= 0)
+    args = amap([("limit", intarg(T, limit)), ("on", T.v("ArgValue", "Bool", on)), ("alice", A("alice")), ("bob", A("bob"))])
+    cu = T.st("Utxo", ref=utxo_ref(T, [0xCD] * 32, 1), address=VecM(ADDR["alice"]), assets=Agg("CanonicalAssets", None, 0, [MapM("HashMap", [[cls_naked(), True, 5000000]])]), datum=none(), script=none())
+    body, _ = finish(ctx, tx, args, amap([("src", utxo(T, 1, lov)), ("collateral", MapM("HashSet", [[cu, True, unit()]]))]), fee, label)
+    if body is None:
+        return
+    b = z3.If(on, z3.BitVecVal(1, 64), z3.BitVecVal(0, 64))
+    flags = ("constr", 0, [("constr", b, []), ("bytes", list(b"hi")), ("int", z3.BitVecVal(-2, 128))])
+    bn = check_outputs(ctx, body, [dict(address=ADDR["bob"], coin=z3.BitVecVal(2000, 128), datum=("constr", 1, [("int", limit), flags])),
+                                   dict(address=ADDR["alice"], coin=lov - F - 2000, datum=("constr", 0, []))], label)
+    coll = models.deref(body.fields[bn.index("collateral")])
+    ctx.require(coll.variant == "Some", "[%s] the collateral input is emitted" % label, shape="collateral dropped")
+    if coll.variant == "Some":
+        inner = models.deref(coll.fields[0])
+        while isinstance(inner, Agg):
+            inner = models.deref(inner.fields[0])
+        tn = eng.tdef("TransactionInput", "struct")[1][2]
+        keys = [(list(models.deref(models.deref(models.deref(x).fields[tn.index("transaction_id")]).fields[0]).items), models.deref(x).fields[tn.index("index")]) for x in inner.items]
+        ctx.require(keys == [([0xCD] * 32, 1)], "[%s] the collateral is the UTxO selected for the collateral block" % label, shape="collateral differs")
+
+
+def s_p22(ctx, T, tx, fee, F, A, label):
+    """a list of records and a map from integers to records inside a datum"""
+    q = sym(ctx, "q")
+    lov = sym(ctx, "src.lovelace")
+    ctx.eng.assume(lov - F >= 0)
+    args = amap([("q", intarg(T, q)), ("alice", A("alice"))])
+    body, _ = finish(ctx, tx, args, amap([("src", utxo(T, 1, lov))]), fee, label)
+    if body is None:
+        return
+    item = lambda i, t: ("constr", 0, [("int", i), ("bytes", [t])])
+    want = ("constr", 0, [("list", [item(q, 1), item(q + 1, 2)]), ("map", [(("int", z3.BitVecVal(1, 128)), item(z3.BitVecVal(7, 128), 3))])])
+    check_outputs(ctx, body, [dict(address=ADDR["alice"], coin=lov - F, datum=want)], label)
+
+
+def s_p23(ctx, T, tx, fee, F, A, label):
+    """an asset name built with concat(<argument>, <literal>) used in a mint and in an output; an
+    integer argument as mint redeemer"""
+    eng = ctx.eng
+    q = sym(ctx, "q")
+    lov = sym(ctx, "src.lovelace")
+    eng.assume(z3.And(lov - F >= 0, q >= 1))
+    name = [0x4E, 0x46]
+    args = amap([("q", intarg(T, q)), ("name", T.v("ArgValue", "Bytes", VecM(name))), ("alice", A("alice"))])
+    body, _ = finish(ctx, tx, args, amap([("src", utxo(T, 1, lov))]), fee, label)
+    if body is None:
+        return
+    full = tuple(name + [0x01])
+    bn = check_outputs(ctx, body, [dict(address=ADDR["alice"], coin=lov - F, assets={(tuple(POL), full): q})], label)
+    mint = models.deref(body.fields[bn.index("mint")])
+    ctx.require(mint.variant == "Some", "[%s] the mint is emitted" % label, shape="mint dropped")
+    if mint.variant == "Some":
+        got = {}
+        for pk, pp, pv in models.deref(mint.fields[0]).entries:
+            for ak, ap, av in models.deref(pv).entries:
+                nm = models.deref(ak)
+                while isinstance(nm, Agg):
+                    nm = models.deref(nm.fields[0])
+                qv = models.deref(av)
+                got[tuple(nm.items)] = qv.fields[0] if isinstance(qv, Agg) else qv
+        ctx.require(set(got) == {full}, "[%s] the minted asset is named concat(name, 0x01) (got %s)" % (label, sorted(got)), shape="mint assets differ")
+        if full in got:
+            ctx.require(z3.SignExt(64, eng.to_bv(got[full], 64)) == q, "[%s] minted quantity" % label, shape="mint quantity differs")
+
+
 SPECS = {"p01_int_arith": s_p01, "p02_asset_arith": s_p02, "p03_datum_spread": s_p03, "p04_mint_meta": s_p04,
          "p05_lists_concat": s_p05, "p06_locals_env": s_p06, "p07_time": s_p07, "p08_two_inputs": s_p08,
-         "p09_record_order": s_p09, "p10_negate_parens": s_p10, "p11_policy_contexts": s_p11, "p12_nested_access": s_p12, "p13_concat_mint_net": s_p13, "p14_time_back_meta": s_p14, "p15_datum_fields_elsewhere": s_p15, "p16_min_utxo_optional": s_p16, "p17_withdrawal_donation": s_p17, "p18_publish_cert": s_p18, "p19_asset_alias_many": s_p19, "p20_two_txs_by_case": s_p20}
+         "p09_record_order": s_p09, "p10_negate_parens": s_p10, "p11_policy_contexts": s_p11, "p12_nested_access": s_p12, "p13_concat_mint_net": s_p13, "p14_time_back_meta": s_p14, "p15_datum_fields_elsewhere": s_p15, "p16_min_utxo_optional": s_p16, "p17_withdrawal_donation": s_p17, "p18_publish_cert": s_p18, "p19_asset_alias_many": s_p19, "p20_two_txs_by_case": s_p20, "p21_collateral_bool_unit": s_p21, "p22_nested_collections": s_p22, "p23_concat_asset_name": s_p23}
 
 
 def _h(name, fn, bounds, tier="quick", **kw):
